@@ -87,12 +87,40 @@ Definition check_conc (c : list (nat * Z) * list (nat * Z)) : bool :=
   | _, _ => false
   end.
 
+(* case kind 4: the PROPOSED repair of the shared component (a copy of the patched hostWrapper that lives
+   in the harness, see props/C11/NOTES.md); same script and observation encoding as kind 1 *)
+Definition check_shared2 (c : list (nat * Z) * list (nat * Z)) : bool :=
+  let '(os, obs) := c in
+  match map_opt scop_of os with
+  | Some os' => list_eqb pairNZ_eqb (repZ (sc2_run shared2_0 os')) obs
+  | None => false
+  end.
+
+(* case kind 5: Extensions.NotifyComponentStatusChange.  script = [(w, 300) for every watcher extension w, in
+   start order] ++ lifecycle script (kind 2); observed = every ComponentStatusChanged call in order,
+   (watcher * 100 + source instance, status) *)
+Definition split_watchers (ls : list (nat * Z)) : list nat * list (nat * Z) :=
+  (map fst (filter (fun p => Z.eqb (snd p) 300) ls), filter (fun p => negb (Z.eqb (snd p) 300)) ls).
+
+Definition delivZ (ds : list (nat * (nat * status))) : list (nat * Z) :=
+  map (fun d => (fst d * 100 + fst (snd d), Z_of_status (snd (snd d)))) ds.
+
+Definition check_watchers (c : list (nat * Z) * list (nat * Z)) : bool :=
+  let '(ls, obs) := c in
+  let '(ws, sc) := split_watchers ls in
+  match map_opt lcop_of sc with
+  | Some os' => list_eqb pairNZ_eqb (delivZ (watcher_deliveries ws (lc_events os'))) obs
+  | None => false
+  end.
+
 Definition check_case (c : nat * (list (nat * Z) * list (nat * Z))) : bool :=
   match fst c with
   | 0 => check_reporter (snd c)
   | 1 => check_shared (snd c)
   | 2 => check_lifecycle (snd c)
-  | _ => check_conc (snd c)
+  | 3 => check_conc (snd c)
+  | 4 => check_shared2 (snd c)
+  | _ => check_watchers (snd c)
   end.
 
 (* model outputs, for replay files *)
@@ -102,10 +130,13 @@ Definition model_out (c : nat * (list (nat * Z) * list (nat * Z))) : option (lis
            (map_opt (fun p => option_map (fun r => (fst p, r)) (rep_of_Z (snd p))) (fst (snd c)))
   | 1 => option_map (fun os' => repZ (sc_run shared0 os')) (map_opt scop_of (fst (snd c)))
   | 2 => option_map (fun os' => evZ (lc_events os')) (map_opt lcop_of (fst (snd c)))
-  | _ => (* concurrent reports: the outcome of the launch order (the other orderings are legal too) *)
+  | 3 => (* concurrent reports: the outcome of the launch order (the other orderings are legal too) *)
          let '(pre, conc) := split_conc (fst (snd c)) in
          match reps_of pre, reps_of conc with
          | Some pre', Some conc' => Some (evZ (snd (rep_run [] (pre' ++ conc'))))
          | _, _ => None
          end
+  | 4 => option_map (fun os' => repZ (sc2_run shared2_0 os')) (map_opt scop_of (fst (snd c)))
+  | _ => let '(ws, sc) := split_watchers (fst (snd c)) in
+         option_map (fun os' => delivZ (watcher_deliveries ws (lc_events os'))) (map_opt lcop_of sc)
   end.
